@@ -3,6 +3,8 @@ package sim
 import (
 	"fmt"
 	"strings"
+
+	"github.com/mlange-42/ark/ecs"
 )
 
 // Twin-world modes: the same history is executed by a second real ark world
@@ -175,6 +177,10 @@ func runResetTwin(cfg Config, prof *Profile, ops []Op, a *Sim) *Violation {
 	}
 	b := NewSim(cfg, Flags{Observe: true, NoOracles: true}, prof)
 	defer b.Done()
+	// "a new world with the same component types registered in the same order"
+	for len(b.pads) < a.resetSnap.pads {
+		b.pads = append(b.pads, ecs.TypeID(b.W, PadType(len(b.pads))))
+	}
 	for _, spec := range a.resetSnap.filters {
 		sp := spec
 		b.opNewFilter(&Op{K: KNewFilter, Spec: &sp})
@@ -201,6 +207,7 @@ func runResetTwin(cfg Config, prof *Profile, ops []Op, a *Sim) *Violation {
 }
 
 type resetSnapshot struct {
+	pads      int
 	filters   []FilterSpec
 	observers []*ObsInst
 }
